@@ -125,9 +125,16 @@ def gen_texts(rng, thorough):
     return out
 
 
-def wire_of(text, n=PASSES):
-    """the model names hardware by the slot map's numbers (it compares them for equality only)"""
-    enc = {"D": lambda it: [0, text["slots"][it[1]]], "U": lambda it: [1], "F": lambda it: [2, it[1]], "C": lambda it: [3, it[1]]}
+def model_key(text, slot, by_decl):
+    """the number by which the model names a declaration (it compares them for equality only): the hardware number of the slot map;
+    for a Button 10 * hardware + slot - two declarations on one pin still differ in their on_click handler"""
+    if slot is None:
+        return -1
+    return 10 * text["slots"][slot] + slot if by_decl else text["slots"][slot]
+
+
+def wire_of(text, by_decl=False, n=PASSES):
+    enc = {"D": lambda it: [0, model_key(text, it[1], by_decl)], "U": lambda it: [1], "F": lambda it: [2, it[1]], "C": lambda it: [3, it[1]]}
     return [4, n, [enc[i[0]](i) for i in text["setup"]], [enc[i[0]](i) for i in text["loop"]]]
 
 
@@ -363,18 +370,19 @@ def last_binding(text, n=PASSES):
     return [last] * cnt(text["setup"]), [[last] * cnt(text["loop"]) for _ in range(n)]
 
 
-def hw_of(text, run):
-    """declaration slots -> hardware numbers (what the model prints)"""
-    f = lambda l: [text["slots"][s] if s is not None else -1 for s in l]
+def hw_of(text, run, by_decl=False):
+    """declaration slots -> the model's numbers"""
+    f = lambda l: [model_key(text, s, by_decl) for s in l]
     return f(run[0]), [f(p) for p in run[1]]
 
 
 def in_guard(kind, text):
     """lex_ok / last_ok / last_ok_loop of Device/DRebind.v, computed by the harness (two passes decide)"""
-    d = hw_of(text, python_binding(text, 2))
+    by_decl = kind == "button"
+    d = hw_of(text, python_binding(text, 2), by_decl)
     if kind == "pot":
         return hw_of(text, lexical_binding(text, 2)) == d
-    la = hw_of(text, last_binding(text, 2))
+    la = hw_of(text, last_binding(text, 2), by_decl)
     return la == d if kind == "ultra" else la[1] == d[1]
 
 
